@@ -154,6 +154,98 @@ def extrinsic_only_rule(ck, F, ty, rule="V7"):
                 n, (" ; but it is also read as " + " | ".join(bad[:2])) if bad else ""))
 
 
+def stage_agreement_rule(ck, F, ty, rule="V8"):
+    """sibling agreement of the per-message stage: when the flooding check rule and the layered check rule both fill the same scratch
+    vector of the arithmetic with one value per incoming message (tanh(x/2), phi(|x|), ..), it is the same function of the message -
+    of msg.value in the flooding rule, of the extrinsic vars[msg.dest] - msg.value in the layered one"""
+    from ..symx import replace_atom, vkey
+    X = var("$x")
+    stages = {}
+    for meth, names in (("send_check_messages", ("self", "var_messages", "send")),
+                        ("update_check_messages_and_vars", ("self", "check_messages", "vars"))):
+        b = F.body("<%s%s as %s>::%s" % (ARI, ty, TRAIT, meth))
+        t8 = Tracer(F, "NONE", mode="int")
+        env = {}
+        for p_, nm in zip(b.params, names):
+            t8.bind(p_, var(nm), env)
+        try:
+            t8.eval(b.value, env)
+        except Unsupported as e:
+            raise AnalysisError("%s: unreadable shape: %s" % (meth, e))
+        for e in t8.events:
+            if e.callee != "<assign>" or not isinstance(e.args[1], Poly) or not isinstance(e.args[0], Poly):
+                continue
+            m = re.match(r"elem\(\('iterdesc', \('elems', \('P', self\.(\w+)\)\)\), ", repr(e.args[0]))
+            if not m or len(e.loops) != 1:
+                continue
+            v = e.args[1]
+            # the per-message input
+            atoms = []
+            _collect_atoms(v, atoms)
+            if meth == "send_check_messages":
+                for a in atoms:
+                    if atom_fn(a) == ".value":
+                        v = replace_atom(v, a, X)
+            else:
+                for a in atoms:
+                    if atom_fn(a) == "index" and atom_args(a)[0] == var("vars"):
+                        d = atom_args(a)[1]
+                        da = single_atom(d) if isinstance(d, Poly) else None
+                        if da and atom_fn(da) == ".dest":
+                            v = replace_atom(v, a, X + app(".value", atom_args(da)[0]))
+            stages.setdefault(m.group(1), {})[meth] = (_renorm(v), e.site)
+    for fld, d in sorted(stages.items()):
+        if len(d) != 2:
+            continue
+        (vf, _), (vl, sl) = d["send_check_messages"], d["update_check_messages_and_vars"]
+        ck.inst(rule, "%s:%s:stage-agreement" % (ty, fld), vf == vl, sl,
+                "self.%s[i]: flooding rule stores %s of the message x, layered rule stores %s of the extrinsic x ; required the same function" % (
+                    fld, repr(vf)[:100], repr(vl)[:100]))
+    return sum(1 for d in stages.values() if len(d) == 2)
+
+
+def _collect_atoms(v, out):
+    if isinstance(v, Poly):
+        for mono in v.t:
+            for a, _ in mono:
+                if a[0] == "f":
+                    out.append(a)
+                    for k in a[2:]:
+                        _collect_atoms(k, out)
+    elif isinstance(v, (tuple, list)):
+        for x in v:
+            _collect_atoms(x, out)
+
+
+def _renorm(v):
+    """rebuild a value bottom-up so that |p| and |-p| have one spelling also after a substitution"""
+    from ..symx import num_call
+    if isinstance(v, Poly):
+        out = Poly()
+        for mono, c in v.t.items():
+            term = Poly.const(c)
+            for a, e in mono:
+                if a[0] == "f":
+                    args = [(_renorm(k[1]) if isinstance(k, tuple) and len(k) == 2 and k[0] == "P" else k) for k in a[2:]]
+                    if a[1] == "abs" and len(args) == 1 and isinstance(args[0], Poly):
+                        p0 = args[0]
+                        first = min(p0.t.items(), key=lambda kv: repr(kv[0])) if p0.t else None
+                        if first is not None and first[1] < 0:
+                            p0 = -p0
+                        base = app("abs", p0)
+                    elif all(isinstance(k, Poly) for k in args):
+                        base = app(a[1], *args)
+                    else:
+                        base = Poly.atom(a)
+                else:
+                    base = Poly.atom(a)
+                for _ in range(e):
+                    term = term * base
+            out = out + term
+        return out
+    return v
+
+
 def _v4(ck, F, eight):
     # ---- V4 -------------------------------------------------------------------------------------------------
     for ty in sorted(eight):
@@ -226,6 +318,7 @@ def run(ck, F, tier, only=None):
     ck.rule("V4", "hook closures applied match the type name")
     ck.rule("V5", "layered update = extrinsic in, extrinsic + new message out")
     ck.rule("V7", "the old check message is read only inside the extrinsic value vars[dest] - msg.value")
+    ck.rule("V8", "a per-message scratch stage filled by both the flooding and the layered check rule is the same function of the message / of the extrinsic")
     ck.rule("V6", "the layered update reads its scratch vector only over the prefix written in the same call (zip with the same message slice; only len()/resize() otherwise)")
     ck.rule("V5b", "8-bit check rules work on quantised (i8, clipped) magnitudes only: abs/min/lookup never see the i16 accumulator")
     ck.trust("interval models of exp, ln_1p, round, abs, min, max, saturating_add, float->int `as` (saturating, NaN -> 0), Iterator::sum over at most %d terms" % maxdeg)
@@ -350,6 +443,7 @@ def run(ck, F, tier, only=None):
         ck.inst("V3", ty + ":quantiser", ok and qc == "8.0", b.span, "input_llr_quantize = saturate(round(C*llr), +-127) with C = %s: %s" % (qc, ok))
 
     # ---- V2 / V5 for all 24 -------------------------------------------------------------------------------
+    n_stage = 0
     for im in impls:
         ty = im["self_ty"].rsplit("::", 1)[-1]
         is8 = ty in eight
@@ -414,6 +508,8 @@ def run(ck, F, tier, only=None):
 
         layered_update_rule(ck, F, ty)
         extrinsic_only_rule(ck, F, ty)
+        n_stage += stage_agreement_rule(ck, F, ty)
+    ck.floor("V8", "arithmetics whose flooding and layered check rules share a per-message scratch stage", n_stage, 4)
 
     # ---- V6 -------------------------------------------------------------------------------------------------
     from .c10 import scratch_discipline
